@@ -376,40 +376,93 @@ Definition parse_slots (c : cred) (mz : mzview) (tp : string) : res (slots * boo
   Ok ({| s_index_a := ia; s_index_b := ib; s_value_a := va; s_value_b := vb |}, true).
 
 (* ---------- W3CCredential.ToCoreClaim ----------
-   [caller] is the options object the caller passed (None = nil pointer).  The
-   function works on a private copy ([work]); the second component of the
-   result is the caller's object as it is left behind. *)
+   Pointer semantics of `opts *CoreClaimOptions`: two option objects exist
+   during a call, the one the caller passed (or, for a nil pointer, the literal
+   allocated at the top of the function) and the local `optsCopy`.  The
+   variable `opts` is a pointer naming one of the two cells; every read and the
+   one write (`opts.MerklizedRootPosition = "index"`) go through it. *)
+Inductive optr := PCaller | PLocal.
+Record ostore := { st_caller : opts; st_local : opts }.
+Definition oload (s : ostore) (p : optr) : opts :=
+  match p with PCaller => st_caller s | PLocal => st_local s end.
+Definition ostore_w (s : ostore) (p : optr) (o : opts) : ostore :=
+  match p with
+  | PCaller => {| st_caller := o; st_local := st_local s |}
+  | PLocal => {| st_caller := st_caller s; st_local := o |}
+  end.
+
+(* vc.Merklize; findCredentialType; parseSlots: reads of the credential only *)
+Definition tcc_prefix (c : cred) : res (mzview * string * slots * bool) :=
+  mz <- of_option (c_mz c) "merklize" ;;
+  ty <- find_credential_type mz ;;
+  sn <- parse_slots c mz ty ;;
+  Ok (mz, ty, fst sn, snd sn).
+
+(* the if/else on nonMerklized: the only statement that writes through `opts` *)
+Definition tcc_root_default (s : ostore) (p : optr) (non_merklized : bool) : res unit * ostore :=
+  if negb non_merklized then
+    if String.eqb (o_root_pos (oload s p)) ""
+    then (Ok tt, ostore_w s p (with_root_pos (oload s p) pos_index))
+    else (Ok tt, s)
+  else if negb (String.eqb (o_root_pos (oload s p)) "") then (Err "root-position-not-supported", s)
+  else (Ok tt, s).
+
+(* core.NewClaim ... return claim: reads `work` = *opts *)
+Definition tcc_build (O : oracles) (c : cred) (mz : mzview) (ty : string) (sl : slots) (work : opts)
+  : res claim :=
+  cl <- new_claim (schema_hash O ty) sl (o_nonce work) (o_version work) ;;
+  let cl := if o_updatable work then set_flag_updatable cl (o_updatable work) else cl in
+  let cl := match c_expiration c with Some e => set_expiration_date cl e | None => cl end in
+  cl <- match c_subject c with
+        | None => Ok cl
+        | Some s =>
+            id <- of_option (did_to_id O s) "did" ;;
+            let p := o_subject_pos work in
+            if String.eqb p "" || String.eqb p pos_index then Ok (set_index_id cl id)
+            else if String.eqb p pos_value then Ok (set_value_id cl id)
+            else Err "unknown-subject-position"
+        end ;;
+  let rp := o_root_pos work in
+  if String.eqb rp pos_index then set_index_merklized_root cl (m_root mz)
+  else if String.eqb rp pos_value then set_value_merklized_root cl (m_root mz)
+  else if String.eqb rp "" then Ok cl
+  else Err "unknown-root-position".
+
+(* [after_copy] is the cell `opts` names after the statements
+   `optsCopy := *opts; opts = &optsCopy`: PLocal in the code as it is now.
+   (PCaller is the code before commit a78f738, kept to show what the purity
+   theorem excludes.) *)
+Definition to_core_claim_at (after_copy : optr) (O : oracles) (c : cred) (caller : option opts)
+  : res claim * ostore :=
+  (* if opts == nil { opts = &CoreClaimOptions{...} } *)
+  let first := match caller with None => default_opts | Some o => o end in
+  (* optsCopy := *opts *)
+  let s := {| st_caller := first; st_local := first |} in
+  let p := after_copy in
+  match tcc_prefix c with
+  | Ok (mz, ty, sl, non_merklized) =>
+      let '(r, s) := tcc_root_default s p non_merklized in
+      match r with
+      | Ok _ => (tcc_build O c mz ty sl (oload s p), s)
+      | Err t => (Err t, s)
+      | Panic w => (Panic w, s)
+      | Diverge => (Diverge, s)
+      end
+  | Err t => (Err t, s)
+  | Panic w => (Panic w, s)
+  | Diverge => (Diverge, s)
+  end.
+
+(* [caller] is the options object the caller passed (None = nil pointer); the
+   second component of the result is the caller's object as it is left behind. *)
 Definition to_core_claim (O : oracles) (c : cred) (caller : option opts) : res claim * option opts :=
-  let work := match caller with None => default_opts | Some o => o end in   (* optsCopy := deref opts *)
-  let r :=
-    mz <- of_option (c_mz c) "merklize" ;;
-    ty <- find_credential_type mz ;;
-    let subject := c_subject c in
-    sn <- parse_slots c mz ty ;;
-    let sl := fst sn in
-    let non_merklized := snd sn in
-    work <- (if negb non_merklized then
-               Ok (if String.eqb (o_root_pos work) "" then with_root_pos work pos_index else work)
-             else if negb (String.eqb (o_root_pos work) "") then Err "root-position-not-supported"
-             else Ok work) ;;
-    cl <- new_claim (schema_hash O ty) sl (o_nonce work) (o_version work) ;;
-    let cl := if o_updatable work then set_flag_updatable cl (o_updatable work) else cl in
-    let cl := match c_expiration c with Some e => set_expiration_date cl e | None => cl end in
-    cl <- match subject with
-          | None => Ok cl
-          | Some s =>
-              id <- of_option (did_to_id O s) "did" ;;
-              let p := o_subject_pos work in
-              if String.eqb p "" || String.eqb p pos_index then Ok (set_index_id cl id)
-              else if String.eqb p pos_value then Ok (set_value_id cl id)
-              else Err "unknown-subject-position"
-          end ;;
-    let rp := o_root_pos work in
-    if String.eqb rp pos_index then set_index_merklized_root cl (m_root mz)
-    else if String.eqb rp pos_value then set_value_merklized_root cl (m_root mz)
-    else if String.eqb rp "" then Ok cl
-    else Err "unknown-root-position"
-  in (r, caller).
+  let rs := to_core_claim_at PLocal O c caller in
+  (fst rs, match caller with Some _ => Some (st_caller (snd rs)) | None => None end).
+
+(* the function as it was before the repair (writes through the caller's pointer) *)
+Definition to_core_claim_unrepaired (O : oracles) (c : cred) (caller : option opts) : res claim * option opts :=
+  let rs := to_core_claim_at PCaller O c caller in
+  (fst rs, match caller with Some _ => Some (st_caller (snd rs)) | None => None end).
 
 (* ---------- call sequences over shared objects ---------- *)
 Record call := { k_cred : nat; k_opts : option nat }.     (* None = nil options *)
